@@ -219,10 +219,13 @@ func makeMethodArshaler(fncs *arshaler, t reflect.Type) *arshaler {
 			}
 			xe := export.Encoder(enc)
 			prevDepth, prevLength := xe.Tokens.DepthLength()
+			wasWithin := xe.Flags.Get(jsonflags.WithinArshalCall) // an enclosing user call keeps the coder locked
 			xe.Flags.Set(jsonflags.WithinArshalCall | 1)
 			marshaler, _ := reflect.TypeAssert[MarshalerTo](va.Addr())
 			err := marshaler.MarshalJSONTo(enc)
-			xe.Flags.Set(jsonflags.WithinArshalCall | 0)
+			if !wasWithin {
+				xe.Flags.Set(jsonflags.WithinArshalCall | 0)
+			}
 			currDepth, currLength := xe.Tokens.DepthLength()
 			if (prevDepth != currDepth || prevLength+1 != currLength) && err == nil {
 				err = errNonSingularValue
@@ -318,10 +321,13 @@ func makeMethodArshaler(fncs *arshaler, t reflect.Type) *arshaler {
 			if prevDepth == 1 && xd.AtEOF() {
 				return io.EOF // check EOF early to avoid fn reporting an EOF
 			}
+			wasWithin := xd.Flags.Get(jsonflags.WithinArshalCall) // an enclosing user call keeps the coder locked
 			xd.Flags.Set(jsonflags.WithinArshalCall | 1)
 			unmarshaler, _ := reflect.TypeAssert[UnmarshalerFrom](va.Addr())
 			err := unmarshaler.UnmarshalJSONFrom(dec)
-			xd.Flags.Set(jsonflags.WithinArshalCall | 0)
+			if !wasWithin {
+				xd.Flags.Set(jsonflags.WithinArshalCall | 0)
+			}
 			currDepth, currLength := xd.Tokens.DepthLength()
 			if (prevDepth != currDepth || prevLength+1 != currLength) && err == nil {
 				err = errNonSingularValue
